@@ -171,7 +171,7 @@ impl<F: SemFlavor> Sys<F> {
         // C18
         let (na, nf) = harness::take_alloc_counts();
         if na + nf > 0 {
-            out.v("C18", "alloc-in-call", format!("{} allocations / {} frees inside library calls of this step", na, nf));
+            out.p("C18", "alloc-in-call", format!("{} allocations / {} frees inside library calls of this step", na, nf));
         }
         // C01 structure
         let snap = F::snapshot(&self.sem);
@@ -183,7 +183,7 @@ impl<F: SemFlavor> Sys<F> {
         for (i, s) in self.slots.iter().enumerate() {
             if let Some(s) = s {
                 if s.fut.is_alive() && s.fut.get().is_terminated() != s.meta.done {
-                    out.v("C17", "is-terminated", format!("slot {}: is_terminated()={} but completed={}", i, s.fut.get().is_terminated(), s.meta.done));
+                    out.p("C17", "is-terminated", format!("slot {}: is_terminated()={} but completed={}", i, s.fut.get().is_terminated(), s.meta.done));
                 }
             }
         }
@@ -198,7 +198,7 @@ impl<F: SemFlavor> Sys<F> {
             let head = order[0];
             let req = self.slots[head].as_ref().unwrap().req;
             if req <= p {
-                out.v("C06", "head-stranded", format!("longest-waiting request (slot {}, {} permits) fits into permits()={} but no pending future holds an unconsumed wake-up", head, req, p));
+                out.p("C06", "head-stranded", format!("longest-waiting request (slot {}, {} permits) fits into permits()={} but no pending future holds an unconsumed wake-up", head, req, p));
             }
         }
     }
